@@ -11,12 +11,14 @@ static unsigned char K32[32];
 /* the last five are configurations setkey accepts although key and algorithm do not go together (same size, other curve or
  * key type; an RSA-PSS key under RS256; a curve one provider cannot import): what they accept is C02's and C09's business,
  * here they are the way into each provider's key-import and refusal paths, which must be as clean as the accepting ones */
-enum { CF_NOKEY, CF_HS, CF_RS, CF_ES, CF_ED, CF_ES384, CF_ES512, CF_ED448, CF_PS, CF_ES_K256, CF_ESK_P256, CF_ED_P256, CF_RS_PSSKEY, CF_ES_BP256, CF_NOKEY_REFUSED, NCF };
+enum { CF_NOKEY, CF_HS, CF_RS, CF_ES, CF_ED, CF_ES384, CF_ES512, CF_ED448, CF_PS, CF_ES_K256, CF_ESK_P256, CF_ED_P256, CF_RS_PSSKEY, CF_ES_BP256, CF_NOKEY_REFUSED, CF_NOKEY_LEEWAY_MAX, NCF };
 #define NCF_MATCHED CF_ES_K256
 static const char *cf_name[NCF] = { "no-key", "HS256+oct32", "RS256+rsa2048", "ES256+P-256", "EdDSA+ed25519", "ES384+P-384", "ES512+P-521", "EdDSA+ed448", "PS256+rsa2048",
 				    "ES256+secp256k1", "ES256K+P-256", "EdDSA+P-256", "RS256+rsa-pss-2048", "ES256+brainpoolP256r1",
 				    /* a checker some of whose configuration calls were refused: expected iss set, then iss, sub and aud "set" to text that is not UTF-8 */
-				    "no-key, after refused claim_set calls" };
+				    "no-key, after refused claim_set calls",
+				    /* the largest leeways the API takes: clock plus leeway does not fit the type */
+				    "no-key, time_leeway(EXP, LONG_MAX) and time_leeway(NBF, LONG_MAX)" };
 static jwk_set_t *cf_set[NCF];
 static jwt_checker_t *cf_chk[NCF];
 static char *VALID[NCF];       /* one valid token per configuration */
@@ -39,12 +41,12 @@ static void setup(void)
 	t = vk_jwk_text(vk_get("rsapss2048"), 0, NULL, NULL); cf_set[CF_RS_PSSKEY] = jwks_create(t); free(t);
 	t = vk_jwk_text(vk_get("bp256r1"), 0, NULL, NULL); cf_set[CF_ES_BP256] = jwks_create(t); free(t);
 	static const jwt_alg_t algs[NCF] = { JWT_ALG_NONE, JWT_ALG_HS256, JWT_ALG_RS256, JWT_ALG_ES256, JWT_ALG_EDDSA, JWT_ALG_ES384, JWT_ALG_ES512, JWT_ALG_EDDSA, JWT_ALG_PS256,
-					     JWT_ALG_ES256, JWT_ALG_ES256K, JWT_ALG_EDDSA, JWT_ALG_RS256, JWT_ALG_ES256, JWT_ALG_NONE };
-	static const char *keyn[NCF] = { NULL, NULL, "rsa2048a", "p256a", "ed25519a", "p384", "p521", "ed448", "rsa2048a", "k256", "p256a", "p256a", "rsapss2048", "bp256r1", NULL };
+					     JWT_ALG_ES256, JWT_ALG_ES256K, JWT_ALG_EDDSA, JWT_ALG_RS256, JWT_ALG_ES256, JWT_ALG_NONE, JWT_ALG_NONE };
+	static const char *keyn[NCF] = { NULL, NULL, "rsa2048a", "p256a", "ed25519a", "p384", "p521", "ed448", "rsa2048a", "k256", "p256a", "p256a", "rsapss2048", "bp256r1", NULL, NULL };
 	rc_rng_reseed(606);
 	for (int c = 0; c < NCF; c++) {
 		cf_chk[c] = jwt_checker_new();
-		if (c && c != CF_NOKEY_REFUSED && jwt_checker_setkey(cf_chk[c], algs[c], jwks_item_get(cf_set[c], 0))) {
+		if (c && c != CF_NOKEY_REFUSED && c != CF_NOKEY_LEEWAY_MAX && jwt_checker_setkey(cf_chk[c], algs[c], jwks_item_get(cf_set[c], 0))) {
 			fprintf(stderr, "parse: setkey failed for %s\n", cf_name[c]);
 			exit(2);
 		}
@@ -56,10 +58,15 @@ static void setup(void)
 				vf_note("claim_set with text that is not UTF-8 was accepted (%d %d %d)", r1, r2, r3);
 			jwt_checker_error_clear(cf_chk[c]);
 		}
+		if (c == CF_NOKEY_LEEWAY_MAX) {
+			jwt_checker_time_leeway(cf_chk[c], JWT_CLAIM_EXP, LONG_MAX);
+			jwt_checker_time_leeway(cf_chk[c], JWT_CLAIM_NBF, LONG_MAX);
+		}
 		char hdr[64];
 		snprintf(hdr, sizeof hdr, "{\"alg\":\"%s\"}", tok_alg_names[algs[c]]);
-		char *input = tok_signing_input(hdr, c == CF_NOKEY_REFUSED ? "{\"iss\":\"i\",\"sub\":\"x\",\"aud\":\"a\"}" : "{\"sub\":\"x\",\"n\":[1,2]}");
-		if (c == CF_NOKEY || c == CF_NOKEY_REFUSED) {
+		char *input = tok_signing_input(hdr, c == CF_NOKEY_REFUSED ? "{\"iss\":\"i\",\"sub\":\"x\",\"aud\":\"a\"}" :
+						     c == CF_NOKEY_LEEWAY_MAX ? "{\"exp\":5,\"nbf\":99999999999}" : "{\"sub\":\"x\",\"n\":[1,2]}");
+		if (c == CF_NOKEY || c == CF_NOKEY_REFUSED || c == CF_NOKEY_LEEWAY_MAX) {
 			VALID[c] = malloc(strlen(input) + 2);
 			sprintf(VALID[c], "%s.", input);
 		} else if (c == CF_HS) {
@@ -76,7 +83,7 @@ static void setup(void)
 		}
 		free(input);
 		/* (for the mismatched configurations VALID is only a token that reaches the provider; whether it is accepted is not asked here) */
-		if (jwt_checker_verify(cf_chk[c], VALID[c]) && c < NCF_MATCHED) {
+		if (c < NCF_MATCHED && jwt_checker_verify(cf_chk[c], VALID[c])) {
 			fprintf(stderr, "parse: the valid token for %s is rejected: %s\n", cf_name[c], jwt_checker_error_msg(cf_chk[c]));
 			exit(2);
 		}
